@@ -30,7 +30,7 @@ ASSUMPTIONS = [
     "for iter_bytes only the concatenation is compared (chunk boundaries are the input there, not an output)",
     "a block consisting only of comment lines may or may not produce an (empty) event: the statement does not say; the reference accepts both",
 ]
-BOUND = {"quick": "<=2 records over the whole alphabet, 3 records over the core; all chunkings for n<=13 bytes; <=2 split points otherwise; 1 empty-chunk deviation",
+BOUND = {"quick": "<=2 records over the whole alphabet (18 SSE / 13 NDJSON records), 3 records over the core (10 / 6); all chunkings for n<=13 bytes; <=2 split points otherwise; 1 empty-chunk deviation",
          "thorough": "<=3 records; all chunkings for n<=17 bytes; <=3 split points otherwise; 1 empty-chunk deviation"}
 
 SSE_RECORDS = {
